@@ -350,7 +350,7 @@ def run_property(pid, res, proofs_ok, proofs_why, extra_part=None):
                        "trace": trace[:40]}, found_input=False)
         res.rule = "no schedule run: the access trace could not be mapped to a configuration"
         return None, None
-    n = {"quick": 1500, "thorough": 100000}[res.tier]
+    n = {"quick": 1500, "thorough": 30000}[res.tier]
     scheds, tags = [], []
     for s in small_scope():
         scheds.append(s); tags.append("small-scope")
